@@ -47,6 +47,14 @@ def _mapbool(f, x):
     return f(x)
 
 
+def _pairs(a, b):
+    A = real_np.asarray(a, dtype=object); B = real_np.asarray(b, dtype=object)
+    A, B = real_np.broadcast_arrays(A, B)
+    out = real_np.empty(A.shape, dtype=object)
+    for idx in real_np.ndindex(A.shape): out[idx] = (A[idx], B[idx])
+    return out
+
+
 def _vectorize_otypes(out):
     """np.vectorize without otypes takes the output dtype from the FIRST output: when that is a Python / numpy integer (or bool), every
     later output is cast to that integer type (truncation).  Modelled for symbolic later outputs by a fresh unknown within one unit."""
@@ -136,7 +144,19 @@ class NPFacade:
         s.int_bound = int_bound
 
     def __getattr__(s, k):
-        return getattr(real_np, k)
+        f = getattr(real_np, k)
+        if not callable(f) or isinstance(f, type): return f
+        def guarded(*a, **kw):
+            # a numpy function this facade does not model: object arrays often work as they are; a TypeError on symbolic arguments means the
+            # operation is outside the model: inconclusive, never a crash of the harness
+            try:
+                return f(*a, **kw)
+            except TypeError as e:
+                if any(_has_sym(x) or isinstance(x, SAbs) for x in a) or any(_has_sym(x) or isinstance(x, SAbs) for x in kw.values()):
+                    raise Inconclusive(f'np.{k} on a symbolic value is not modelled ({str(e)[:80]})')
+                raise
+        guarded.__name__ = k
+        return guarded
 
     @property
     def pi(s):
@@ -308,10 +328,19 @@ class NPFacade:
         raise OutOfBound(f'np.floor argument outside 0..{K}')
 
     def isclose(s, a, b, rtol=1e-05, atol=1e-08, equal_nan=False):
+        if (isinstance(a, (real_np.ndarray, list, tuple)) or isinstance(b, (real_np.ndarray, list, tuple))) and (_has_sym(a) or _has_sym(b)):
+            return _mapbool(lambda pair: bool(s.isclose(pair[0], pair[1], rtol, atol, equal_nan)), _pairs(a, b))
         if not (_is_sym(a) or _is_sym(b) or _is_sym(rtol) or _is_sym(atol)): return real_np.isclose(a, b, rtol=rtol, atol=atol, equal_nan=equal_nan)
         # numpy's definition: |a - b| <= atol + rtol * |b|
         d = a - b
         if isinstance(d, SAbs): d = d._polar()
+        if isinstance(d, real_np.ndarray):
+            return _mapbool(lambda pair: bool(s.isclose(pair[0], pair[1], rtol, atol, equal_nan)), _pairs(a, b))
+        if isinstance(d, SC) and any(core.CTX.atoms.unknown[x] for x in d.p.atoms_used()):
+            # a tolerance decision on a SOLVED quantity (result of a linear-algebra contract stub): its magnitude is not expressible on the
+            # input side, so the path could neither be decided nor replayed; exact equality is still decided
+            if core.CTX.entails_zero(d.p): return True
+            raise Inconclusive('np.isclose on a quantity computed by a linear-algebra contract stub (tolerance on a derived value)')
         ab = abs(b) if _is_sym(b) else real_np.abs(b)
         if isinstance(ab, SAbs): ab = ab._real_abs()
         ad = abs(d) if isinstance(d, SC) else real_np.abs(d)
